@@ -1132,3 +1132,116 @@ def history_table(ctx, rule, length, overlapping=True):
                      cells=histories if first else 0)
         first = False
     return histories, kinds
+
+
+# =============================================================================== every run is closed (typestate)
+def rule_validators_are_closed(ctx, rule_id):
+    """
+    The end-of-data verdict of the checks (DistinctCount, plugin checks) and their cleanup happen in close().  Every place
+    of the package that creates a Reader or Writer therefore has to close it on every path: the construction is the
+    context expression of a ``with`` statement, or the object is bound to a name on which close() is called in a
+    ``finally`` block (or which is handed to ``closing()``).  A loop over ``rows()`` without close() reports "n rows
+    accepted" for data whose DistinctCount check fails.  Covers every module of the package, the GUI included.
+    """
+    import ast
+
+    model = ctx.model
+    validator_names = {"Reader", "Writer"}
+    sites = []
+    for module in model.modules.values():
+        if not module.name.startswith(model.PACKAGE):
+            continue
+        parents = {}
+        for parent in ast.walk(module.tree):
+            for child in ast.iter_child_nodes(parent):
+                parents[id(child)] = parent
+        for node in ast.walk(module.tree):
+            if not isinstance(node, ast.Call):
+                continue
+            callee = node.func
+            name = callee.attr if isinstance(callee, ast.Attribute) else (callee.id if isinstance(callee, ast.Name) else None)
+            if name not in validator_names:
+                continue
+            if isinstance(callee, ast.Attribute) and not (isinstance(callee.value, ast.Name) and callee.value.id in ("validio", "cutplace")):
+                continue
+            if isinstance(callee, ast.Name) and module.name != model.PACKAGE + ".validio" and name not in module.imports:
+                continue
+            # the enclosing function (or the module)
+            scope = node
+            while id(scope) in parents and not isinstance(scope, (ast.FunctionDef, ast.AsyncFunctionDef, ast.Module)):
+                scope = parents[id(scope)]
+            parent = parents.get(id(node))
+            verdict = None
+            if isinstance(parent, ast.withitem) and parent.context_expr is node:
+                verdict = "context manager"
+            elif isinstance(parent, ast.Assign) and len(parent.targets) == 1 and isinstance(parent.targets[0], ast.Name):
+                bound = parent.targets[0].id
+                for inner in ast.walk(scope):
+                    if isinstance(inner, ast.Try):
+                        for statement in inner.finalbody:
+                            for call in ast.walk(statement):
+                                if isinstance(call, ast.Call) and isinstance(call.func, ast.Attribute) and call.func.attr == "close" \
+                                        and isinstance(call.func.value, ast.Name) and call.func.value.id == bound:
+                                    verdict = "closed in a finally block"
+                    if isinstance(inner, ast.withitem):
+                        expr = inner.context_expr
+                        if isinstance(expr, ast.Name) and expr.id == bound:
+                            verdict = "used as context manager"
+                        if isinstance(expr, ast.Call) and expr.args and isinstance(expr.args[0], ast.Name) and expr.args[0].id == bound \
+                                and (getattr(expr.func, "id", None) == "closing" or getattr(expr.func, "attr", None) == "closing"):
+                            verdict = "closing()"
+            elif isinstance(parent, ast.Return):
+                verdict = "returned to the caller"
+            sites.append((module, node, getattr(scope, "name", "<module>"), name, verdict))
+    if len(sites) < 3:
+        raise AnalysisError("%s: only %d construction site(s) of Reader / Writer found in the package" % (rule_id, len(sites)))
+    ctx.res.minimum(rule_id, 3)
+    for module, node, scope_name, name, verdict in sites:
+        what = "%s:%s creates a %s and closes it on every path" % (module.relpath, scope_name, name)
+        if verdict is not None:
+            ctx.res.ok(rule_id, what + " (%s)" % verdict, True)
+        else:
+            ctx.res.fail(rule_id, what, "%s.%s:%s:%s never closed" % (module.name.replace("cutplace.", ""), scope_name, rule_id, name),
+                         "%s:%d (%s)" % (module.relpath, node.lineno, scope_name),
+                         "a %s is created here but neither used as a context manager nor closed in a finally block: the checks are never "
+                         "asked for their end-of-data verdict (a failing DistinctCount goes unreported) and never cleaned up" % name)
+
+
+# =============================================================================== a CID given as path
+def validators_accept_cid_path_table(ctx, rule):
+    """Reader and Writer document ``cid_or_path``: constructed with the path of a CID they load it themselves and then
+    work with the loaded CID exactly as if it had been handed over (nothing may ask the path text for CID attributes)."""
+    model = ctx.model
+
+    def cell(ch):
+        kind = ch.choose("validator", ["Reader", "Writer"])
+        format_name = ch.choose("format", ["delimited", "fixed"])
+        run = _writer_world(model, ch, format_name, header=0)
+        interp, cid = run["interp"], run["cid"]
+        if format_name == "fixed":
+            for index, field in enumerate(cid.attrs["_field_formats"]):
+                field.attrs["_length"] = Obj(model.cls("cutplace.ranges.Range"), {"_items": [(3, 3)], "_lower_limit": 3, "_upper_limit": 3},
+                                             label="length%d" % index)
+        loaded = []
+
+        @stub
+        def load_cid(interp_, args, kwargs):
+            loaded.append(list(args))
+            return cid
+
+        interp.stubs["cutplace.interface.Cid"] = load_cid
+        key = "%s(%s CID given as path)" % (kind, format_name)
+        try:
+            if kind == "Reader":
+                validator = _construct(interp, READER, ["customers_cid.ods", run["world"].stream()])
+            else:
+                validator = _construct(interp, WRITER, ["customers_cid.ods", run["target"]])
+        except AbsRaise as raised:
+            return (key, "raise " + exc_name(raised.value), "works with the loaded CID")
+        if loaded != [["customers_cid.ods"]]:
+            return (key, "CID loaded with %r" % (loaded,), "works with the loaded CID")
+        return (key, "works with the loaded CID" if validator.attrs.get("_cid") is cid else "uses %r as CID" % (validator.attrs.get("_cid"),),
+                "works with the loaded CID")
+
+    ctx.res.minimum(rule, 1)
+    return decide(ctx, rule, "Reader / Writer constructed with the path of a CID", VALIDATOR + ".__init__", cell, min_cells=4)
